@@ -350,7 +350,12 @@ class Lane(LaneBase):
                'after JSON the implementation stores edge types as raw str (not EdgeType); they compare equal to the enum '
                'members and the lane reads them through str(); an unknown edge-type text is ACCEPTED by from_dict and is '
                'outside the model (driver answers `unmodelled`)']
-    PARTIAL = []
+    PARTIAL = ['the round-trip theorems assume, besides WF, CG.C05.PlainNorm (nodes of the plain class carry var = "" and lag = 0: '
+               'true of every state the model reaches, not a clause of WF)',
+               'plain -> time-series with validate=True: success is proved under acyclicity; the exact failure criterion '
+               '(toTs_succeeds_iff) is proved for validate=False, the mode from_causal_graph uses (with validation the first '
+               'error is ValueError or CyclicConnectionError depending on the edge order)',
+               'a dictionary whose edge_type text is no EdgeType value is outside the model (the code stores the raw text)']
 
     def cases(self, tier, rng):
         thorough = tier == 'thorough'
